@@ -113,7 +113,11 @@ TextOf(b) == IF Len(b) >= 2 /\ b[1] = 255 /\ b[2] = 254 THEN Utf8Of(Dec16(FoldCR
 NulFree(b) == {i \in 1..Len(b) : b[i] = 0} = {}
 IsUtf16(b) == Len(b) >= 2 /\ ((b[1] = 255 /\ b[2] = 254) \/ (b[1] = 254 /\ b[2] = 255))
 \* text() is specified for NUL-free texts: no zero byte, or no zero code unit in a UTF-16 file
-TextDefined(b) == IF IsUtf16(b) THEN {i \in 1..((Len(b) - 2) \div 2) : b[2 * i + 1] = 0 /\ b[2 * i + 2] = 0} = {}
+\* and, in a UTF-16 file, well-formed: every lead surrogate is followed by a trail surrogate and vice versa
+\* (the property speaks of encodings of scalar-value sequences)
+WellFormed16(us) == {i \in 1..Len(us) : \/ (IsLead(us[i]) /\ ~(i < Len(us) /\ IsTrail(us[i + 1])))
+                                         \/ (IsTrail(us[i]) /\ ~(i > 1 /\ IsLead(us[i - 1])))} = {}
+TextDefined(b) == IF IsUtf16(b) THEN LET us == Units16(b, b[1] = 255) IN {i \in 1..Len(us) : us[i] = 0} = {} /\ WellFormed16(us)
                   ELSE NulFree(b)
 
 \* "text files carrying a UTF-8, UTF-16LE or UTF-16BE byte-order mark are returned as the same text in UTF-8":
@@ -210,6 +214,7 @@ Content(x)       == IF Exists(x) THEN fs[x] ELSE <<>>
 FirstBytes(x, n) == SubSeq(Content(x), 1, IF n <= Len(Content(x)) THEN n ELSE Len(Content(x)))
 SizeOf(x)        == IF Exists(x) THEN Len(fs[x]) ELSE -1
 Observe(x, what, n) == /\ Settled(x) /\ UNCHANGED <<fs, hmode, hpos, heof, dirty>>
+                       /\ (IF what = "text" THEN TextDefined(Content(x)) ELSE IF what \in {"lines", "readlines"} THEN NulFree(Content(x)) ELSE TRUE)
                        /\ Log([op |-> what, x |-> x, n |-> n,
                                r |-> IF what = "content" THEN Content(x)
                                      ELSE IF what = "first" THEN FirstBytes(x, n)
